@@ -44,7 +44,8 @@ class ParticleSwarm(object):
     @property
     def relative_ess(self):
         """ESS normalized to number of particles."""
-        return self.ess / self.num_particles
+        # The ESS cannot exceed the number of particles; clamp the rounding noise of equal weights (1.0000000000000002)
+        return min(self.ess / self.num_particles, 1.0)
 
     @property
     def unnormalized_log_weights(self):
